@@ -504,6 +504,36 @@ def _stitch_run(mode, L, specs, T):
         j = args[0]
         return np.array([[1000.0 * j + k] for k in range(n)])
 
+    par = mode.endswith("P")          # the process-pool branch of the front-end (its own stitching loop), run in-process
+    mode = mode.rstrip("P")
+    if par:
+        import concurrent.futures as cf
+
+        class InProcessPool:
+            def __init__(self, max_workers=None, mp_context=None, initializer=None, initargs=()):  # noqa: ARG002
+                if initializer is not None:
+                    initializer(*initargs)
+
+            def __enter__(self):
+                return self
+
+            def __exit__(self, *exc):
+                return False
+
+            def submit(self, fn, *a, **k):
+                f = cf.Future()
+                try:
+                    f.set_result(fn(*a, **k))
+                except BaseException as e:  # noqa: BLE001
+                    f.set_exception(e)
+                return f
+
+            def shutdown(self, *a, **k):
+                pass
+
+        simulator.ProcessPoolExecutor = InProcessPool
+        simulator.available_cpus = lambda: 3
+
     if mode == "strong":
         from qiskit import QuantumCircuit
 
@@ -511,7 +541,7 @@ def _stitch_run(mode, L, specs, T):
         simulator.digital_tjm = fake
         qc = QuantumCircuit(L)
         qc.x(0)
-        simulator.run(MPS(L, state="zeros"), qc, sp, nm, parallel=False)
+        simulator.run(MPS(L, state="zeros"), qc, sp, nm, parallel=par)
     else:
         from mqt.yaqs.core.data_structures.networks import MPO
 
@@ -519,9 +549,10 @@ def _stitch_run(mode, L, specs, T):
         sp = AnalogSimParams(obs, elapsed_time=0.1, dt=0.1, num_traj=T, order=order, sample_timesteps=False, show_progress=False)
         simulator.analog_tjm_1 = fake
         simulator.analog_tjm_2 = fake
-        simulator.run(MPS(L, state="zeros"), MPO.ising(L, 1.0, 0.5), sp, nm, parallel=False)
+        simulator.run(MPS(L, state="zeros"), MPO.ising(L, 1.0, 0.5), sp, nm, parallel=par)
+    pos = [next(k for k, so in enumerate(sp.sorted_observables) if so is o) for o in obs]
     return {"traj": [np.asarray(o.trajectories).real.reshape(T, -1)[:, 0].tolist() for o in obs],
-            "res": [float(np.asarray(o.results).real.ravel()[0]) for o in obs]}
+            "res": [float(np.asarray(o.results).real.ravel()[0]) for o in obs], "pos": pos}
 
 
 def run_stitch(inp):
@@ -534,7 +565,14 @@ def run_stitch(inp):
                 "sig": f"stitch:{mode}:{line}"}
     impl = " ".join(f"t{j}=" + ",".join(str(int(round(x))) for x in tr) for j, tr in enumerate(res["traj"]))
     impl += " " + " ".join(ib.fmt(x) for x in res["res"])
-    return {"req": req, "impl": impl, "oracle": None, "kind": f"stitch-{mode}", "sig": f"stitch:{mode}:{T}:{line}", "nontrivial": len(specs) > 1}
+    # direct: the back-end computes row k for the k-th observable of the site-sorted list; object j must receive its own row
+    probs = []
+    for j, (tr, k) in enumerate(zip(res["traj"], res["pos"])):
+        want = [1000.0 * t + k for t in range(T)]
+        if [round(x) for x in tr] != [round(x) for x in want]:
+            probs.append(f"object #{j} ({tok(specs[j])}, position {k} in the sorted list) holds trajectory values {tr}, its own are {want}")
+    return {"req": req, "impl": impl, "oracle": {"ok": not probs, "detail": "; ".join(probs[:2]) or "every object holds its own rows"},
+            "kind": f"stitch-{mode}", "sig": f"stitch:{mode}:{T}:{line}", "nontrivial": len(specs) > 1}
 
 
 def run_d29(inp):
@@ -574,16 +612,16 @@ def gen(rng, tier):
     n_raw = {"quick": 12, "thorough": 80, "search": 10}.get(tier, 12)
     n_val = {"quick": 10, "thorough": 80, "search": 30}.get(tier, 10)
     n_run = {"quick": 5, "thorough": 30, "search": 10}.get(tier, 5)
-    n_st = {"quick": 8, "thorough": 40, "search": 4}.get(tier, 8)
+    n_st = {"quick": 14, "thorough": 60, "search": 12}.get(tier, 8)
     yield {"kind": "d29"}
     for _ in range(n_eval):
         L = rng.choice([2, 3, 4, 5])
         pvm = rng.random() < 0.08
         yield {"kind": "evalobs", "L": L, "specs": random_specs(rng, L, rng.randrange(1, 8), pvm=pvm), "perms": 2, "sub": rng.randrange(1 << 30)}
-    for _ in range(n_st):
+    for i_st in range(n_st):
         L = rng.choice([2, 3, 4])
-        mode = rng.choice(["strong", "analog1", "analog2"])
-        yield {"kind": "stitch", "L": L, "mode": mode, "T": rng.choice([1, 2, 3, 5]),
+        mode = ["strongP", "analog1P", "analog2P", "strong", "analog1", "analog2"][i_st % 6] if i_st < 6 else rng.choice(["strong", "analog1", "analog2", "strongP", "analog1P", "analog2P"])
+        yield {"kind": "stitch", "L": L, "mode": mode, "T": rng.choice([1, 2, 3, 5]) if not mode.endswith("P") else rng.choice([2, 3, 5]),
                "specs": random_specs(rng, L, rng.randrange(1, 7), allow_sch=False), "sub": rng.randrange(1 << 30)}
     for _ in range(n_val):
         yield {"kind": "values", "L": rng.choice([1, 2, 3, 4, 5]), "sub": rng.randrange(1 << 30)}
